@@ -11,6 +11,12 @@
              drain lock or by the failed unlock that renews it (both lead to the top of invoke2, i.e. to a re-examination
              of ds_pending_data);
      susp  : suspend count (gates taking the drain lock).
+   rq deliberately merges DISPATCH_QUEUE_ENQUEUED and DISPATCH_QUEUE_DIRTY.  In the real word they differ: ENQUEUED means
+   the target queue will invoke the source; DIRTY alone is only a promise while somebody holds the drain lock (its unlock
+   is refused) or while the source is suspended (the final dispatch_resume re-runs _dispatch_source_wakeup, which
+   re-examines ds_pending_data); an idle source may keep a stale DIRTY (invoke_finish, suspended unlock).  That finer
+   argument is the lane invariant of C01/C06; here "pending data => rq or a waker in flight" is what is proved, and the
+   stuck detector of the stress harness covers the rest.
    The real lane mechanics (drain lock word, enqueue on the target queue) are the business of C01/C02; the link between
    this abstraction and dq_state is checked on recorded runs (lock / unlock / renew events are DERIVED from the recorded
    dq_state writes of each thread), not proved here.
